@@ -431,7 +431,17 @@ def gen_eq_case(seed, cid, n_states=3, n_calls=6):
 
 def rename_map(rng, params, kinds=("fresh", "perm", "perm", "chain", "param_i")):
     """an injective renaming of all the parameters: fresh names, a permutation of the existing ones or a chain
-    (quantified variables ?z / ?w are never used as new names)"""
+    (quantified variables ?z / ?w are never used as new names); the pairs of the map come in declaration order
+    or in a random one (a caller's dict need not follow the parameter list)"""
+    m = _rename_map(rng, params, kinds)
+    if len(m) >= 2 and rng.random() < 0.5:
+        items = list(m.items())
+        rng.shuffle(items)
+        m = dict(items)
+    return m
+
+
+def _rename_map(rng, params, kinds):
     names = [p for p, _ in params]
     if not names:
         return {}
